@@ -20,7 +20,7 @@ LEVEL_TEXT = {
  "C18": "Bounded model checking of eigenvector_centrality on two-node graphs (directed edge, reciprocal edges, undirected edge, isolated pair) with a symbolic integer weight, max_iter 1 or 2 and tolerance in {1e-6, 1e-2}: Ok results have one entry per node, non-negative entries and unit Euclidean norm; exhausting max_iter yields PowerIterationFailedConvergence. The approximate-fixed-point clause is outside.",
  "C20": "Assertion-free totality harnesses: public queries and algorithms on 7 degenerate shapes x 8 graph kinds run in Kani's debug model, where every unwrap / index / overflow panic of the real code is a checked assertion; absent names are passed to Result/Option-returning functions.",
  "C15": "Bounded model checking of get_subgraph / reverse / set_all_edge_weights / to_single_edges on the shape catalogue with symbolic weights: result abstraction vs reference transform, full representation invariant of the result, source unchanged, WrongMethod guards.",
- "C16": "Bounded model checking of the two G(n,p) skipping loops with every RNG output, every p in (0,1) and ln (by contract) symbolic: emitted pairs in range, no self-loop, strictly increasing, EVERY pair / empty / complete graph reachable (cover properties), no arithmetic overflow; the argument guard for every f64 p outside (0,1); complete_graph for n <= 1 (n = 2,3 in the full tier).",
+ "C16": "Bounded model checking of the two G(n,p) skipping loops with every RNG output, every p in (0,1) and ln (by contract) symbolic: emitted pairs in range, no self-loop, strictly increasing, EVERY pair / empty / complete graph reachable (cover properties), no arithmetic overflow; the argument guard for every f64 p outside (0,1); complete_graph for n <= 1 with the flag symbolic and for n = 2 undirected (flag case-split; n = 2 directed and n = 3 in the full tier).",
 }
 
 def main():
